@@ -100,7 +100,8 @@ def monitor (_cfgF : Fields) (ops : List (Nat × Fields)) : String :=
       else
         let reads := parseReads (getD f "reads" "-")
         let bad := reads.findSome? fun (k, v) =>
-          if v = "miss" || v = "err" then none
+          if v = "panic" then some (fail "load_panicked_on_damaged_bytes" s!"fault {getD f "kind" ""}: the load of key {k} panicked")
+          else if v = "miss" || v = "err" then none
           else match v.toNat? with
             | none => some (fail "garbage_surfaced_as_value" s!"fault {getD f "kind" ""}: key {k} reads as a {v} value")
             | some ver => if (versionsOf k).contains ver then none
